@@ -282,6 +282,7 @@ Inductive normalisation :=
 | HeapTotalOrder            (* pop order fixed by a total order with serial numbers *)
 | NoCombine                 (* thread-local scratch that is never combined *)
 | Allowed (reason : String.string) (* justified allow-list entry *)
+| Flagged (key : String.string) (* shown schedule dependent by the exploration; key of the violation *)
 | UnstableSort              (* std::sort / manifold::sort where equal keys may exist *)
 | NotNormalised.
 
@@ -289,9 +290,25 @@ Record site := mkSite { s_file : String.string; s_line : Z; s_what : String.stri
 
 Definition norm_ok (n : normalisation) : bool :=
   match n with
-  | UnstableSort | NotNormalised => false
+  | UnstableSort | NotNormalised | Flagged _ => false
   | Allowed r => negb (String.eqb r String.EmptyString)
   | _ => true
   end.
 
 Definition site_ok (s : site) : bool := norm_ok (s_norm s).
+
+Definition is_flagged (s : site) : bool :=
+  match s_norm s with Flagged _ => true | _ => false end.
+
+(* every site is normalised (or justified), except the ones flagged as defects *)
+Definition sites_ok (l : list site) : bool := forallb (fun s => site_ok s || is_flagged s) l.
+
+(* ------------------------------------------------------------------ *)
+(* face_op.cpp:226-245  Face2Tri, numEdge == 3: the face's three halfedges
+   (startVert, endVert) sit in slots firstEdge+0..2 in the order the slot
+   cursors handed out;  tri = (s0, s1, s2);  if (ends[0] == tri[2]) swap 1,2 *)
+Definition face3 (h0 h1 h2 : Z * Z) : Z * Z * Z :=
+  if Z.eqb (snd h0) (fst h2) then (fst h0, fst h2, fst h1) else (fst h0, fst h1, fst h2).
+
+Definition perms3 {A} (x y z : A) : list (A * A * A) :=
+  [(x, y, z); (x, z, y); (y, x, z); (y, z, x); (z, x, y); (z, y, x)].
